@@ -182,6 +182,37 @@ static void build_catalogue()
 		(n == r ? A : R)("Vector*Matrix" + tag, [=] { return vsum(vec(n) * mat(r, c)); });
 	}
 	A("Outer_Vector_Product 2,5", [] { return msum(Outer_Vector_Product(vec(2), vec(5))); });
+	// guards after a modifier changed the shape: what Rows()/Columns() report and what the storage holds must agree (Resize, Assign, Delete_Row/Column),
+	// for the accepted side (every entry of the new shape is readable and writable - the sanitizer build sees an overrun) and the rejected side
+	for(int nr : {1, 2, 4})
+		for(int nc : {1, 3, 6})
+		{
+			std::string tg = " after Resize(3x3 -> " + std::to_string(nr) + "x" + std::to_string(nc) + ")";
+			A("Matrix[] last entry" + tg, [=] { Matrix M = mat(3, 3); M.Resize(nr, nc); M[nr - 1][nc - 1] = 2.5; return msum(M) + M[nr - 1][nc - 1] + M[0][nc - 1]; });
+			A("Matrix * Vector(columns)" + tg, [=] { Matrix M = mat(3, 3); M.Resize(nr, nc); Vector v(nc, 1.0); return (M * v)[nr - 1]; });
+			A("Return_Row + Vector(columns)" + tg, [=] { Matrix M = mat(3, 3); M.Resize(nr, nc); Vector v(nc, 1.0); return (M.Return_Row(0) + v)[nc - 1]; });
+			A("Return_Column + Vector(rows)" + tg, [=] { Matrix M = mat(3, 3); M.Resize(nr, nc); Vector v(nr, 1.0); return (M.Return_Column(nc - 1) + v)[nr - 1]; });
+			A("Transpose" + tg, [=] { Matrix M = mat(3, 3); M.Resize(nr, nc); Matrix T = M.Transpose(); return T[nc - 1][nr - 1] + msum(T); });
+			A("M + same shape" + tg, [=] { Matrix M = mat(3, 3); M.Resize(nr, nc); return msum(M + mat(nr, nc)); });
+			if(nc != 3)
+			{
+				R("Return_Row + Vector(old columns)" + tg, [=] { Matrix M = mat(3, 3); M.Resize(nr, nc); Vector v(3, 1.0); return (M.Return_Row(0) + v)[0]; });
+				R("Matrix * Vector(old columns)" + tg, [=] { Matrix M = mat(3, 3); M.Resize(nr, nc); Vector v(3, 1.0); return (M * v)[0]; });
+			}
+			if(nr != 3 || nc != 3)
+				R("M + old shape" + tg, [=] { Matrix M = mat(3, 3); M.Resize(nr, nc); return msum(M + mat(3, 3)); });
+			R("Matrix[] row index rows" + tg, [=] { Matrix M = mat(3, 3); M.Resize(nr, nc); return M[nr][0]; });
+			if(nr == nc && nr > 1)
+				A("Determinant / Trace" + tg, [=] { Matrix M = mat(3, 3); M.Resize(nr, nc); for(int i = 0; i < nr; i++) M[i][i] += 7.0; return M.Determinant() + M.Trace(); });
+			else if(nr != nc)
+				R("Trace of non-square" + tg, [=] { Matrix M = mat(3, 3); M.Resize(nr, nc); return M.Trace(); });
+		}
+	A("Determinant after Resize(5x5 -> 4x4)", [] { Matrix M = mat(5, 5); for(int i = 0; i < 5; i++) M[i][i] += 9.0; M.Resize(4, 4); return M.Determinant(); });
+	A("Inverse after Resize(5x5 -> 3x3)", [] { Matrix M = mat(5, 5); for(int i = 0; i < 5; i++) M[i][i] += 9.0; M.Resize(3, 3); return msum(M.Inverse()); });
+	A("Vector ops after Resize(3 -> 5)", [] { Vector v(3, 1.0); v.Resize(5); v[4] = 2.0; Vector w(5, 1.0); return (v + w)[4] + v.Dot(w); });
+	R("Vector + old size after Resize(3 -> 5)", [] { Vector v(3, 1.0); v.Resize(5); Vector w(3, 1.0); return (v + w)[0]; });
+	A("Vector assignment of another size", [] { Vector v; v = Vector(5, 1.0); Vector w(5, 2.0); return (v + w)[4] + (double) v.Size(); });
+	R("Vector index size after assignment of a smaller vector", [] { Vector v(5, 1.0); v = Vector(2, 1.0); return v[2]; });
 	A("Matrix ctor regular rows", [] { return msum(Matrix(std::vector<std::vector<double>> {{1, 2, 3}, {4, 5, 6}})); });
 	R("Matrix ctor ragged rows (short)", [] { return msum(Matrix(std::vector<std::vector<double>> {{1, 2, 3}, {4, 5}})); });
 	R("Matrix ctor ragged rows (long)", [] { return msum(Matrix(std::vector<std::vector<double>> {{1, 2}, {4, 5, 6}})); });
